@@ -27,7 +27,7 @@ RULE = (
 )
 ASSUMPTIONS = [
     "programs whose own statements raise are C10's domain and are not generated here, so any exception out of run_to_completion is reported",
-    "the clock is frozen during a case (ageing is C11's domain)",
+    "histories contain explicit `age` items (6 s of idle time on the harness-owned clock), otherwise the clock is frozen",
 ]
 WALL = {"quick": 170, "thorough": 1500}
 
@@ -219,7 +219,7 @@ def prop(case):
                 seen_done.add(fs.uid)
                 if fs.child_flow_uids or fs.action_uids:
                     ended_with_children = True
-    forks = kinds["matchg"] + kinds["awaitg"] + kinds["when"] > 0
+    forks = kinds["matchg"] + kinds["awaitg"] + kinds["awaitga"] + kinds["when"] > 0
     nt = forks and ended_with_children and fed >= 10
     labels = []
     if forks:
